@@ -703,6 +703,42 @@ def gen_id_cse(rng):
             "kwargs": {x: sizes[x] for x in inside}, "note": ["cse"]}
 
 
+def directed_dot_calls():
+    """Deterministic dot calls with two contracted axes of equal length that appear in different orders in the operands
+    (the case in which contracted axes could be paired by position), with and without brackets, with a batch axis, on the
+    backends that lower dot differently.  They run under R2/R3 and the model cross-check (Denote.denoteDot) on every run."""
+    out = []
+    for backend in ("numpy.numpylike", "numpy.einsum", None):
+        for desc, shapes in [
+            ("a b c, b c d -> a d", [(2, 3, 3), (3, 3, 2)]),
+            ("a b c, c b d -> d a", [(2, 3, 3), (3, 3, 2)]),
+            ("a [b c], [c b] d -> a d", [(2, 2, 2), (2, 2, 3)]),
+            ("e c a b, b e d c -> e a d", [(2, 2, 3, 2), (2, 2, 1, 2)]),
+            ("[b] a [c], [c] [b] -> a", [(3, 2, 3), (3, 3)]),
+        ]:
+            out.append({"op": "dot", "family": "dot", "desc": desc, "shapes": shapes, "kwargs": {}, "note": ["directed-dot"], "backend": backend})
+    return out
+
+
+def directed_reduce_calls():
+    """Deterministic reductions with two or three separately bracketed axes between un-bracketed ones, all lengths equal
+    (a wrong axis is then invisible to every shape check).  They run under R2/R3, the bracket-order tie and the model
+    cross-check (Denote.denoteReduce) on every run."""
+    out = []
+    for op in ("sum", "max"):
+        for desc, shape in [
+            ("[a] b [c] d -> b d", (2, 2, 2, 2)),
+            ("[a] b [c] d -> d b", (3, 3, 3, 3)),
+            ("b [a] d [c] -> b d", (2, 2, 2, 2)),
+            ("[a] [b] c d -> d c", (2, 2, 2, 2)),
+            ("a [b] c [d] e [f] -> e a c", (2, 2, 2, 2, 2, 2)),
+            ("(a [b]) c [d] -> c a", (4, 2, 2)),
+        ]:
+            kw = {"a": 2} if desc.startswith("(") else {}
+            out.append({"op": op, "family": "reduce", "desc": desc, "shapes": [shape], "kwargs": kw, "note": ["directed-reduce"], "backend": None})
+    return out
+
+
 _DIRECTED = None
 
 
@@ -756,6 +792,23 @@ def run(ctx):
             ctx.count(f"directed:{rel}:{'ok' if fail is None else 'VIOLATED'}")
             if fail is not None:
                 small = shrink_pair(ctx, rel, dict(call), None, tseed)
+                fail = small or fail
+                ctx.violation(sig_pair(fail), fail)
+        if len(ctx.violations) >= 4:
+            break
+    for call in directed_dot_calls() + directed_reduce_calls():
+        for rel in ("R2", "R3"):
+            args = gen.make_args(call, rng, "rand")
+            tseed = rng.randrange(1 << 30)
+            try:
+                fail = check_pair(ctx, rel, dict(call), args, call["backend"], tseed)
+            except Skip:
+                ctx.count(f"directed-dot:{rel}:skipped")
+                continue
+            ctx.case(f"directed {rel} {call['op']} {call['desc']} {call['backend']}", True)
+            ctx.count(f"directed-dot:{rel}:{'ok' if fail is None else 'VIOLATED'}")
+            if fail is not None:
+                small = shrink_pair(ctx, rel, dict(call), call["backend"], tseed)
                 fail = small or fail
                 ctx.violation(sig_pair(fail), fail)
         if len(ctx.violations) >= 4:
